@@ -521,6 +521,16 @@ class SymInterp(Interp):
             return ix_
         if name in ("max", "min", "amax", "amin"):
             return lambda a, axis=None, **kw: I.np_minmax("max" if "max" in name else "min", a, axis)
+        if name == "array_equal":
+            def array_equal(a, b, **kw):
+                a, b = S.asarr(a), S.asarr(b)
+                if a.shape != b.shape:
+                    return False
+                same = all(x == y for x, y in zip(a.data, b.data))
+                if not same:
+                    I.generic_notes.append("np.array_equal of symbolic arrays: entries that are not identical forms are unequal for generic values")
+                return bool(same)
+            return array_equal
         if name == "allclose":
             def allclose(a, b, **kw):
                 a, b = S.asarr(a), S.asarr(b)
